@@ -10,6 +10,7 @@ package tables
 import (
 	"bufio"
 	"bytes"
+	"encoding/hex"
 	"encoding/json"
 	"net/http"
 	"net/http/httptest"
@@ -25,7 +26,7 @@ import (
 )
 
 type c43Op struct {
-	K     string   `json:"k"` // dsn, deldsn, grant, create, delete, auth
+	K     string   `json:"k"` // dsn, deldsn, grant, create, delete, tcreate, tdrop, auth
 	U     *string  `json:"u"`
 	D     *string  `json:"d"`
 	T     *string  `json:"t"`
@@ -91,11 +92,14 @@ func TestVerifC43(t *testing.T) {
 		dsns.DSNService = svc
 		admin := &router.Session{ID: 1, User: "root", Admin: true}
 		answers := []int{}
+		store := [][2]int{}
 
 		for _, o := range ops {
 			switch o.K {
 			case "dsn":
-				if err := dsns.DSNService.WriteDSN(1, "root", defs.DSN{Name: c43s(o.D), Provider: defs.SqliteProvider, Database: "x.db", Restricted: o.R}); err != nil {
+				// one real SQLite data file per DSN name and history: tables survive a DSN that is deleted and defined again
+				dataFile := filepath.Join(dir, "data-"+itoa43(n)+"-"+hex.EncodeToString([]byte(c43s(o.D)))+".db")
+				if err := dsns.DSNService.WriteDSN(1, "root", defs.DSN{Name: c43s(o.D), Provider: defs.SqliteProvider, Database: dataFile, Restricted: o.R}); err != nil {
 					t.Fatalf("WriteDSN: %v", err)
 				}
 			case "deldsn":
@@ -127,6 +131,23 @@ func TestVerifC43(t *testing.T) {
 				s := *admin
 				s.URLParts = map[string]any{"dsn": d, "table": c43s(o.T)}
 				DeletePermissions(&s, httptest.NewRecorder(), req)
+			case "tcreate":
+				// the real TableCreate handler (CREATE TABLE in the DSN's database, then createTablePermissions)
+				body, _ := json.Marshal([]defs.DBColumn{{Name: "id", Type: "int"}})
+				path := "/dsns/" + c43s(o.D) + "/tables/" + c43s(o.T)
+				req, _ := http.NewRequest(http.MethodPut, path, bytes.NewReader(body))
+				s := &router.Session{ID: 1, User: c43s(o.U), Admin: true, URL: req.URL,
+					URLParts: map[string]any{"dsn": c43s(o.D), "table": c43s(o.T)}, Parameters: map[string][]string{}}
+				TableCreate(s, httptest.NewRecorder(), req)
+			case "tdrop":
+				// the real DeleteTable handler (DROP TABLE, then removeTablePermissions)
+				path := "/dsns/" + c43s(o.D) + "/tables/" + c43s(o.T)
+				req, _ := http.NewRequest(http.MethodDelete, path, nil)
+				s := *admin
+				s.URL = req.URL
+				s.URLParts = map[string]any{"dsn": c43s(o.D), "table": c43s(o.T)}
+				s.Parameters = map[string][]string{}
+				DeleteTable(&s, httptest.NewRecorder(), req)
 			case "auth":
 				s := &router.Session{ID: 2, User: o.SU, Admin: o.SA}
 				if Authorized(s, c43s(o.U), c43s(o.D)+"."+c43s(o.T), o.Perms...) {
@@ -134,12 +155,47 @@ func TestVerifC43(t *testing.T) {
 				} else {
 					answers = append(answers, 0)
 				}
+
+				// what the permission store records for exactly this key at this moment
+				cnt, allow := 0, 0
+
+				if initPermissions() {
+					items, err := pHandle.Read(pHandle.Equals("dsn", c43s(o.D)), pHandle.Equals("table", c43s(o.T)), pHandle.Equals("user", c43s(o.U)))
+					if err == nil {
+						for _, it := range items {
+							p := it.(*PermissionsObject)
+							cnt++
+
+							ok := true
+							for _, op := range o.Perms {
+								switch op {
+								case defs.TableReadPermission:
+									ok = ok && (p.Read || p.Admin)
+								case defs.TableWritePermission:
+									ok = ok && (p.Write || p.Admin)
+								case defs.TableUpdatePermission:
+									ok = ok && (p.Update || p.Admin)
+								case defs.TableDeletePermission:
+									ok = ok && (p.Delete || p.Admin)
+								default:
+									ok = ok && p.Admin
+								}
+							}
+
+							if ok {
+								allow++
+							}
+						}
+					}
+				}
+
+				store = append(store, [2]int{cnt, allow})
 			default:
 				t.Fatalf("unknown op %q", o.K)
 			}
 		}
 
-		b, _ := json.Marshal(answers)
+		b, _ := json.Marshal(map[string]any{"a": answers, "s": store})
 		w.Write(b)
 		w.WriteString("\n")
 	}
